@@ -1137,6 +1137,9 @@ def run_job(job):
             st.extra.setdefault("harness_errors", []).append("replay of the first schedule of %s diverged" % label)
         return st
     n_total = 0
+    import time as _time
+
+    t0 = _time.process_time()
     for pre in job["prefixes"]:
         n, capped = sched.explore(lambda p: one(p), lambda x: None, bound, prefix=pre, max_execs=200000)
         n_total += n
@@ -1144,6 +1147,7 @@ def run_job(job):
             st.exhaustive = False
             st.caps.append("%s: execution cap hit below prefix %s" % (label, pre))
     st.extra.setdefault("executions", {})[label] = n_total + st.extra.get("executions", {}).get(label, 0)
+    st.extra.setdefault("cpu_s", {})[label] = round(_time.process_time() - t0, 1)
     return st
 
 
